@@ -269,4 +269,76 @@ theorem sarRound64_eq_c_of_fits (a b : Int)
   · simp only [n8, if_false]; unfold wrap32; norm_num; omega
   · simp only [n14, if_false]; unfold wrap32; norm_num; omega
 
+/-! ### lane helpers of NSQ_del_dec_avx2.c -/
+
+/-- a 32-bit signed value. -/
+abbrev I32 (a : Int) : Prop := -2147483648 ≤ a ∧ a < 2147483648
+
+theorem addSatLane_eq (a b : Int) (ha : I32 a) (hb : I32 b) : addSatLane a b = addSat32C a b := by
+  unfold addSatLane addSat32C wrap32 I32 at *
+  by_cases h1 : a < 0 <;> by_cases h2 : b < 0 <;> by_cases h3 : (a + b + 2147483648) % 4294967296 - 2147483648 < 0 <;>
+    simp [h1, h2, h3] <;> omega
+
+theorem subSatLane_eq (a b : Int) (ha : I32 a) (hb : I32 b) : subSatLane a b = subSat32C a b := by
+  unfold subSatLane subSat32C wrap32 I32 at *
+  by_cases h1 : a < 0 <;> by_cases h2 : b < 0 <;> by_cases h3 : (a - b + 2147483648) % 4294967296 - 2147483648 < 0 <;>
+    simp [h1, h2, h3] <;> omega
+
+/-- both saturating operations are the mathematical clamp. -/
+theorem addSat32C_clamp (a b : Int) (ha : I32 a) (hb : I32 b) :
+    addSat32C a b = max (-2147483648) (min 2147483647 (a + b)) := by
+  unfold addSat32C wrap32 I32 at *
+  by_cases h1 : a < 0 <;> by_cases h2 : b < 0 <;> by_cases h3 : (a + b + 2147483648) % 4294967296 - 2147483648 ≥ 0 <;>
+    simp [h1, h2, h3] <;> omega
+
+theorem limitLane_eq (num l1 l2 : Int) : limitLane num l1 l2 = limit num l1 l2 := by
+  unfold limitLane limit
+  by_cases h : l1 > l2
+  · have h' : ¬ (l1 < l2) := by omega
+    simp only [h, h', if_true, if_false]
+    split <;> split <;> (try split) <;> omega
+  · simp only [h, if_false]
+    by_cases h2 : l1 < l2
+    · simp only [h2, if_true]
+      split <;> split <;> (try split) <;> omega
+    · have : l1 = l2 := by omega
+      subst this
+      simp only [h2, if_false]
+      split <;> split <;> (try split) <;> omega
+
+theorem smulwwLaneAvx2_eq (a b : Int) : wrap32 (smulwwLaneAvx2 a b) = smulww a b := by
+  have := smulwwLaneSse_eq a b true
+  simpa [smulwwLaneSse, smulwwLaneAvx2] using this
+
+theorem smulwbLaneAvx2_eq (a b : Int) : wrap32 (smulwbLaneAvx2 a b) = smulwb a b := by
+  have hv : -2147483648 ≤ wrap32 a ∧ wrap32 a < 2147483648 := by unfold wrap32; omega
+  have hs : -32768 ≤ sext16 b ∧ sext16 b < 32768 := by unfold sext16; omega
+  have e : wrap32 (b * 65536) = sext16 b * 65536 := by unfold wrap32 sext16; omega
+  have hp : -70368744177664 ≤ wrap32 a * sext16 b ∧ wrap32 a * sext16 b ≤ 70368744177664 := by
+    constructor <;> nlinarith [hv.1, hv.2, hs.1, hs.2]
+  unfold smulwbLaneAvx2 smulwb
+  rw [e]
+  have e2 : wrap32 a * (sext16 b * 65536) = wrap32 a * sext16 b * 65536 := by rw [Int.mul_assoc]
+  simp only [e2]
+  generalize wrap32 a * sext16 b = P at hp ⊢
+  show wrap32 (P * 65536 % 18446744073709551616 / 4294967296) = wrap32 (P / 65536)
+  unfold wrap32; omega
+
+/-- the rounding shift agrees with silk_RSHIFT_ROUND exactly while `a + 2^(bits-1)` does not wrap (shown for the shift
+    counts the kernel uses on vectors, 4 and 10); at the top of the range it does NOT (see the example in OpusProps/C15). -/
+theorem sraiRoundLane_eq (a : Int) (ha : I32 a) :
+    (a < 2147483648 - 8 → sraiRoundLane a 4 = rshiftRound a 4) ∧
+    (a < 2147483648 - 512 → sraiRoundLane a 10 = rshiftRound a 10) := by
+  unfold sraiRoundLane rshiftRound wrap32 I32 at *
+  have n4 : ((4 : Nat) = 1) = False := by decide
+  have n10 : ((10 : Nat) = 1) = False := by decide
+  constructor
+  · intro h; simp only [n4, if_false]; norm_num; omega
+  · intro h; simp only [n10, if_false]; norm_num; omega
+
+theorem randLane_eq (seed : Int) : randLane seed = randC seed := by
+  unfold randLane randC wrap32
+  generalize seed * 196314165 = P
+  omega
+
 end Opus.Kernels
